@@ -50,7 +50,8 @@ Span(a) == IF a.size = "X" THEN {<<a.byte, a.bit>>}
 \*   counters[c] = [name, owner (index of the program that bumps it, 0 = none), fb (index of the
 \*                  task-associated FB instance whose member it is, 0 = none),
 \*                  scope ("global"|"program"|"fb"), qual ("none"|"retain"|"nonretain"|"persistent"),
-\*                  shape]                                                          (C09)
+\*                  shape, initFrom ("" or the name of a non-retained global counter whose value
+\*                  is this program variable's initialiser: `k : INT := g;`)]       (C09)
 \*   sinit       = [single variable |-> its declared initial value]
 \*   vars0       = initial bytes of every bound variable
 \* s:   [now, g, lastAct, lastSingle, overruns, img, vars, cnt, src, drvLog, exec, faulted,
@@ -251,9 +252,16 @@ Retained(n) == \E k \in DOMAIN cfg.counters : cfg.counters[k].name = n /\ cfg.co
 \* fault latch restart; the static configuration (bindings, access paths, task associations)
 \* is untouched, so nothing can come loose.  The raw images keep their bytes until the next
 \* cycle rewrites them (a fresh runtime starts from zero images; see PowerCycleOf).
+\* A variable whose initialiser reads a global gets that global's value AFTER the globals were
+\* (re-)initialised: initialisation order is globals first, then program variables, at start-up and at
+\* every restart alike (the source global is never retained, so it restarts at its own initial value).
+InitFrom(n) == LET k == CHOOSE k \in DOMAIN cfg.counters : cfg.counters[k].name = n IN cfg.counters[k].initFrom
 RestartOf(x, mode) ==
-  LET f == Fresh(cfg, cfg.vars0) IN
-  [f EXCEPT !.ctr = [n \in DOMAIN x.ctr |-> IF mode = "warm" /\ Retained(n) THEN x.ctr[n] ELSE 0],
+  LET f == Fresh(cfg, cfg.vars0)
+      kept(n) == IF mode = "warm" /\ Retained(n) THEN x.ctr[n] ELSE 0
+  IN
+  [f EXCEPT !.ctr = [n \in DOMAIN x.ctr |-> IF mode = "warm" /\ Retained(n) THEN x.ctr[n]
+                                            ELSE IF InitFrom(n) # "" THEN kept(InitFrom(n)) ELSE 0],
             !.img = x.img, !.src = x.src, !.drvFail = x.drvFail, !.pendVar = x.pendVar, !.pendIo = x.pendIo]
 \* save, new process, load: the same variables survive as in a warm restart
 \* (a new process has a new debugger: nothing pending)
